@@ -195,7 +195,7 @@ const TEXT_WORDS: &[&str] = &[
 const SAFE_AFTER_DIGIT: &[&str] = &["eggs", "times", "large", "pieces", "and", "x", "rounds"];
 const NAME_WORDS: &[&str] = &[
     "salt", "flour", "olive", "oil", "Water", "égg", "ñoquis", "漢字", "bread1", "sugar", "Big", "pot", "pan", "butter", "wine", "sauce", "2nd",
-    "tomato", "rice", "Öl", "milk", "crème\u{a0}fraîche", "de\u{3000}sel",
+    "tomato", "rice", "Öl", "milk", "crème\u{a0}fraîche", "de\u{3000}sel", "ﬂour", "Straße",
 ];
 const SINGLE_WORDS: &[&str] = &["salt", "flour", "Water", "égg", "漢字", "bread1", "sugar", "pot", "pan", "butter", "1", "rice", "Öl"];
 const UNITS_MASS: &[&str] = &["g", "kg", "gram", "grams", "oz", "lb", "mg"];
@@ -205,7 +205,9 @@ const UNITS_UNKNOWN: &[&str] = &["pinch", "cloves", "sprigs", "big handfuls", "c
 const TEXT_VALUES: &[&[&str]] = &[&["some"], &["a", "pinch"], &["to", "taste"], &["half", "a", "dozen"], &["few"]];
 /// text values that begin with a number: only generated together with a `%unit`, because without `%`
 /// ADVANCED_UNITS documents `{1 scant}` as value 1 + unit `scant`
-const TEXT_VALUES_NUMLEAD: &[&[&str]] = &[&["1", "scant"], &["2", "heaped"], &["3", "or", "4"], &["1/2", "a"], &["1.5", "level"], &["2-3", "big"]];
+const TEXT_VALUES_NUMLEAD: &[&[&str]] = &[&["1", "scant"], &["2", "heaped"], &["3", "or", "4"], &["1/2", "a"], &["1.5", "level"], &["2-3", "big"], &["1", "1/2", "heaped"], &["2", "1/2", "or", "so"], &["1", "/", "2", "a", "b"]];
+/// canonical parser only (no ADVANCED_UNITS there): a number followed by words without `%` is one text value
+const TEXT_VALUES_SPACED_UNIT: &[&[&str]] = &[&["2", "1/2", "cups"], &["1", "kg"], &["3", "big", "ones"], &["1", "1/2", "(heaped)", "tbsp"]];
 const NOTE_WORDS: &[&str] = &["finely", "chopped", "sifted", "room", "temperature", "large", "peeled", "crème"];
 const META_KEYS: &[&str] = &["note", "origin", "k1", "my key", "Kategorie", "x"];
 const ESCAPABLE: &[char] = &['@', '#', '~', '{', '}', '>', '=', '\\', '-', '['];
@@ -240,14 +242,16 @@ pub struct GenOpts {
     /// references may carry a quantity of another class than their definition (text vs number, other unit):
     /// documented to warn, still valid — used by the monitors of the consumers (grouping, listing, crashes)
     pub mix_ref_classes: bool,
+    /// text values like `{2 1/2 cups}` without `%` (only where ADVANCED_UNITS is certainly off)
+    pub spaced_unit_text: bool,
 }
 
 impl GenOpts {
     pub fn canonical() -> Self {
-        GenOpts { extended: false, core: true, max_sections: 3, max_blocks: 4, max_items: 7, timers_need_time: false, mix_ref_classes: false }
+        GenOpts { extended: false, core: true, max_sections: 3, max_blocks: 4, max_items: 7, timers_need_time: false, mix_ref_classes: false, spaced_unit_text: true }
     }
     pub fn extended() -> Self {
-        GenOpts { extended: true, core: false, max_sections: 3, max_blocks: 4, max_items: 7, timers_need_time: true, mix_ref_classes: false }
+        GenOpts { extended: true, core: false, max_sections: 3, max_blocks: 4, max_items: 7, timers_need_time: true, mix_ref_classes: false, spaced_unit_text: false }
     }
     /// extended, with references free to change the quantity class (not warning-free)
     pub fn extended_mixed() -> Self {
@@ -255,7 +259,7 @@ impl GenOpts {
     }
     /// the subset C02 calls core syntax
     pub fn core() -> Self {
-        GenOpts { extended: false, core: true, max_sections: 3, max_blocks: 4, max_items: 7, timers_need_time: true, mix_ref_classes: false }
+        GenOpts { extended: false, core: true, max_sections: 3, max_blocks: 4, max_items: 7, timers_need_time: true, mix_ref_classes: false, spaced_unit_text: false }
     }
 }
 
@@ -347,7 +351,9 @@ impl<'a> Gen<'a> {
                     }
                 };
                 let val = if text {
-                    if uc != UnitClass::None && self.rng.chance(1, 3) {
+                    if uc == UnitClass::None && self.o.spaced_unit_text && !ext && self.rng.chance(1, 3) {
+                        Val::Text(self.rng.pick(TEXT_VALUES_SPACED_UNIT).iter().map(|s| s.to_string()).collect())
+                    } else if uc != UnitClass::None && self.rng.chance(1, 3) {
                         Val::Text(self.rng.pick(TEXT_VALUES_NUMLEAD).iter().map(|s| s.to_string()).collect())
                     } else {
                         Val::Text(rng_text(self.rng))
